@@ -102,12 +102,15 @@ PROPS = {
     "C10": {
         "module": "Cuke.Props.C10",
         "namespace": "Cuke.C10",
-        "families": [("attempt.run", 800, 30000)],
-        "segments": {"attempt.run": [0, 2]},
+        # sched.*: the run-level clauses — the panic-hook window (probes HOOK take / HOOK restore / EXIT against the
+        # acceptor, class I; theorems lts_panic_hook_*) and the Lean monitor `hookWindow` (segment c10) on every run
+        "families": [("attempt.run", 800, 30000), ("sched.run", 1000, 40000), ("sched.lazy", 600, 30000), ("sched.custom", 400, 15000)],
+        "segments": {"attempt.run": [0, 2], "sched.run": [5, 15], "sched.mon": [15]},
+        "segment_names": ['I', 'c10'],
         "skip_prefixes": ["mon.c09"],
         "modelled_not_verified": [
             "catch_unwind and unwinding themselves; payload types String / &'static str / u32 are exercised",
-            "the process-wide panic hook: observed by a counting hook installed by the harness (monitor mon.c10), not modelled",
+            "the process-wide panic hook itself (std::panic::take_hook / set_hook): the model has one bit 'silent hook installed' driven by the probes around the two calls; that panics print nothing while it is set is observed by a counting hook installed by the harness (monitor mon.c10)",
         ],
     },
     "C03": {
